@@ -171,6 +171,9 @@ func (in *Interp) zero(t types.Type) Value {
 		if s.K == KFP {
 			return in.fpConst(0)
 		}
+		if in.wideInt(t) {
+			return in.tb.IntConst(big0)
+		}
 		return in.tb.zeroOf(s)
 	case *types.Pointer:
 		return (*Value)(nil)
